@@ -380,7 +380,7 @@ def havoc_sym_field(ex, state, shape, field):
         parts = (((f, typ[4:]), (f + "?none", "bool")) if typ.startswith("opt:") else ((f, typ),))
         for key_attr, t in parts:
             arr = ex.reg._sym_arr(state, shape, key_attr, t)
-            state.sheap[(shape, key_attr)] = z3.Const(fresh_name("hv_H_%s_%s" % (shape, key_attr)), arr.sort())
+            state.sheap[ex.reg.heap_key(shape, key_attr)] = z3.Const(fresh_name("hv_H_%s_%s" % (shape, key_attr)), arr.sort())
 
 
 def havoc_modifies(ex, state, contract, env):
@@ -409,7 +409,7 @@ def _havoc_path(ex, state, base, parts, contract):
             if len(parts) == 1:
                 typ = ex.reg.sym_field_type(a.shape, parts[0])
                 for suffix, t in ((("", typ[4:]), ("?none", "bool")) if typ.startswith("opt:") else ((("", typ),))):
-                    key = (a.shape, parts[0] + suffix)
+                    key = ex.reg.heap_key(a.shape, parts[0] + suffix)
                     arr = ex.reg._sym_arr(state, a.shape, parts[0] + suffix, t)
                     fresh = z3.Const(fresh_name("hv_" + parts[0]), arr.sort().range())
                     state.sheap[key] = z3.Store(arr, a.t, fresh)
